@@ -109,11 +109,13 @@ def gen_cases(rng, tier):
         kw.setdefault("seed", rng.randrange(1 << 30))
         cases.append(c12.settle_seed(kw))
 
-    def base_case(kind, E, U):
+    def base_case(kind, E, U, force=None):
+        """force: {"obs": bool, "batched": bool, "het": bool, "m": int} -- features fixed instead of drawn"""
+        force = force or {}
         base = kind.replace("sys_", "")
         nk = rng.choice([1, 2])
         keys = [{"name": n, "shape": rng.choice(["()", "(1,)", "(k,)"]), "k": 2} for n in c12.KEY_POOL[:nk]]
-        c = dict(kind=kind, d=rng.choice([1, 2]), m=rng.choice([1, 2]), keys=keys,
+        c = dict(kind=kind, d=rng.choice([1, 2]), m=force.get("m", rng.choice([1, 2])), keys=keys,
                  batched=None, B=rng.choice([2, 4]), obs=None, het=None, malformed=None, E=E, U=U,
                  same_names=rng.random() < 0.25,
                  terms={"dyn": True, "ic": base != "statio", "boundary": base != "ode", "norm": base != "ode"})
@@ -129,19 +131,19 @@ def gen_cases(rng, tier):
             spec["bc"] = rng.choice(["dirichlet", "dirichlet", "neumann", "per_facet"])
             pu[f"u{i}"] = spec
         c["per_unknown"] = pu
-        if rng.random() < 0.7:
+        if force.get("obs", rng.random() < 0.7):
             who = [f"u{i}" for i in range(U) if rng.random() < 0.7] or ["u0"]
             c["obs"] = {"eq_keys": [], "slice": False, "unknowns": who}
-        if rng.random() < 0.25:
+        if force.get("batched", rng.random() < 0.25):
             names = [k["name"] for k in keys]
             c["batched"] = rng.sample(names, rng.randint(1, len(names)))
-        if rng.random() < 0.3:
+        if force.get("het", rng.random() < 0.3):
             # a heterogeneous parameter inside the equations of a system (the decorator around `equation`)
             c["het"] = {keys[0]["name"]: "fn"}
         # dynamic_loss_dict / u_dict (and every per-unknown dict) are built in a non-sorted key order
         c["eq_order"] = rng.sample(range(E), E)
         c["u_order"] = rng.sample(range(U), U)
-        if c["obs"] is not None and c["m"] == 2 and rng.random() < 0.75:
+        if c["obs"] is not None and c["m"] == 2 and (force.get("slices") or rng.random() < 0.75):
             # user-given obs_slice_dict: channel slices of equal width that DIFFER between unknowns; an unknown that
             # is not the last one of u_dict has observations and a slice different from the last one's
             ordered = [f"u{i}" for i in c["u_order"]]
@@ -171,6 +173,18 @@ def gen_cases(rng, tier):
                         w[f] = _weight_spec(rng, f, es, us, mode)
                     c["weights"] = w
                     add(**c)
+    # (1b) every combination of the optional features, for every kind, whatever the seed: parameter batch with and
+    # without observations, observations through per-unknown slices that differ (two-output networks, >= 2 unknowns),
+    # heterogeneous parameter with and without a parameter batch
+    combos = [{"obs": False, "batched": True}, {"obs": True, "batched": True}, {"obs": True, "batched": False, "m": 2, "slices": True},
+              {"obs": False, "batched": False, "het": True}, {"obs": True, "batched": True, "het": True, "m": 2, "slices": True}]
+    for kind in kinds:
+        for force in combos:
+            for (E, U) in ([(2, 2)] if quick else [(1, 1), (2, 2), (1, 3), (3, 2)]):
+                c = base_case(kind, E, U, force)
+                es, us = _names(c)
+                c["weights"] = {f: _weight_spec(rng, f, es, us, rng.choice(["scalar", "dict"])) for f in fields_of(kind)}
+                add(**c)
     # (2) one-equation one-unknown systems against the plain loss, scalar / dict / missing weights
     for kind in kinds:
         for style in (["scalar", "dict"] if quick else ["scalar", "dict", "mixed"] * 4):
